@@ -129,14 +129,17 @@ pub fn run(args: &[String]) -> i32 {
         substr_leaves(&schema["schema"], &schema["variables"], &mut Vec::new(), &mut leaves);
         // draw number `draws` is the boundary draw: every free-text leaf cut by substr(0, N) comes out
         // of its generator with at least N characters (a rare but possible draw), so it is exactly N long
-        for draw in 0..=draws {
-            let boundary = draw == draws;
+        // draw `draws`: every such leaf exactly N long; draw `draws + 1`: the same with the cut falling right
+        // after a blank (the last kept character is a space)
+        for draw in 0..=(draws + 1) {
+            let boundary = draw >= draws;
+            let cut_after_blank = draw == draws + 1;
             if boundary && leaves.is_empty() { continue; }
             id += 1;
             runs += 1;
             if boundary { boundary_runs += 1; }
             let code = mt.trim_start_matches("MT").to_string();
-            let scenario = if boundary { format!("{}#longest-texts", scenario) } else { scenario.clone() };
+            let scenario = if cut_after_blank { format!("{}#cut-after-blank", scenario) } else if boundary { format!("{}#longest-texts", scenario) } else { scenario.clone() };
             let mut evs: Vec<Value> = vec![json!({"e": "begin", "id": id, "scenario": scenario, "mt": code})];
             let r = guarded(|| {
                 let mut evs: Vec<Value> = Vec::new();
@@ -153,7 +156,15 @@ pub fn run(args: &[String]) -> i32 {
                         if let Some(leaf) = leaf_mut(root, path) {
                             if let Some(txt) = leaf.as_str() {
                                 let have = txt.chars().count();
-                                if have < *n { *leaf = json!(format!("{}{}", txt, "abcdefghij".chars().cycle().take(*n - have).collect::<String>())); }
+                                if have < *n {
+                                    let mut padded = format!("{}{}", txt, "abcdefghij".chars().cycle().take(*n - have).collect::<String>());
+                                    if cut_after_blank { padded.pop(); padded.push(' '); }
+                                    *leaf = json!(padded);
+                                } else if cut_after_blank && have == *n && *n > 1 {
+                                    let mut t: String = txt.chars().take(*n - 1).collect();
+                                    t.push(' ');
+                                    *leaf = json!(t);
+                                }
                             }
                         }
                     }
